@@ -120,6 +120,11 @@ func WarmQueries(u *Universe, d Driver) {
 	for _, q := range u.Probes {
 		safely(func() { d.Search(q) })
 	}
+	WarmSequences(u, d)
+}
+
+// WarmSequences: the first elements of one sequence of every kind, each abandoned early.
+func WarmSequences(u *Universe, d Driver) {
 	first := func(q Query, n int) {
 		safely(func() {
 			c := 0
